@@ -289,7 +289,8 @@ def check_scenario(sc):
                 y1 = None
                 for levy in ("none", "space-time", "foster"):
                     try:
-                        y1, p, _ = sr.one_step(method, sde, options, t0, h, Y0, Wt, Ut, At, levy=levy)
+                        # (every second step size: the same solver object has taken a step of another length before)
+                        y1, p, _ = sr.one_step(method, sde, options, t0, h, Y0, Wt, Ut, At, levy=levy, warm_up=(k % 2 == 0))
                         break
                     except sr.Refused as e:
                         if "levy" in str(e).lower():
